@@ -241,18 +241,18 @@ func cmdFunc(args []string) {
 // property checks
 
 type PropCfg struct {
-	Title    string   `json:"title"`
-	Funcs    []string `json:"funcs"`    // function keys (regex allowed with prefix "re:")
-	Kinds    []string `json:"kinds"`    // extra obligation kinds claimed: safety, frame, lock, alias
-	Assumptions []string `json:"assumptions"`
-	Floor    int      `json:"floor"`    // minimum number of obligations (vacuity guard)
-	Bounded  []BoundedCfg `json:"bounded"`
-	Explanation string `json:"explanation"`
+	Title       string       `json:"title"`
+	Funcs       []string     `json:"funcs"` // function keys (regex allowed with prefix "re:")
+	Kinds       []string     `json:"kinds"` // extra obligation kinds claimed: safety, frame, lock, alias
+	Assumptions []string     `json:"assumptions"`
+	Floor       int          `json:"floor"` // minimum number of obligations (vacuity guard)
+	Bounded     []BoundedCfg `json:"bounded"`
+	Explanation string       `json:"explanation"`
 }
 
 type BoundedCfg struct {
-	Name string `json:"name"`
-	Cmd  string `json:"cmd"`
+	Name  string `json:"name"`
+	Cmd   string `json:"cmd"`
 	Bound string `json:"bound"`
 }
 
